@@ -19,18 +19,25 @@ from keccak import TranslateError, strip_c_comments, find_function
 import sponge
 
 CTX = r"shake(?:128|256)incctx\s*\*\s*state"
+CTX25 = r"shake(?:128|256)ctx\s*\*\s*state"
 WRAPPERS = []
 for _b in ("128", "256"):
     WRAPPERS += [
-        ("shake%s_inc_init" % _b, CTX, [("state", "ctx")], "keccak_inc_init", True),
+        ("shake%s_inc_init" % _b, CTX, [("state", "ctx")], "keccak_inc_init", "PQC_SHAKEINCCTX_BYTES"),
         ("shake%s_inc_absorb" % _b, CTX + r"\s*,\s*const\s+uint8_t\s*\*\s*input\s*,\s*size_t\s+inlen",
-         [("state", "ctx"), ("input", "bytes"), ("inlen", "nat")], "keccak_inc_absorb", False),
-        ("shake%s_inc_finalize" % _b, CTX, [("state", "ctx")], "keccak_inc_finalize", False),
+         [("state", "ctx"), ("input", "bytes"), ("inlen", "nat")], "keccak_inc_absorb", None),
+        ("shake%s_inc_finalize" % _b, CTX, [("state", "ctx")], "keccak_inc_finalize", None),
         ("shake%s_inc_squeeze" % _b, r"uint8_t\s*\*\s*output\s*,\s*size_t\s+outlen\s*,\s*" + CTX,
-         [("output", "out"), ("outlen", "nat"), ("state", "ctx")], "keccak_inc_squeeze", False),
+         [("output", "out"), ("outlen", "nat"), ("state", "ctx")], "keccak_inc_squeeze", None),
+        # the non-incremental context (25 lanes, no byte counter): building blocks of the one-shot shake128/256
+        ("shake%s_absorb" % _b, CTX25 + r"\s*,\s*const\s+uint8_t\s*\*\s*input\s*,\s*size_t\s+inlen",
+         [("state", "ctx25"), ("input", "bytes"), ("inlen", "nat")], "keccak_absorb", "PQC_SHAKECTX_BYTES"),
+        ("shake%s_squeezeblocks" % _b, r"uint8_t\s*\*\s*output\s*,\s*size_t\s+nblocks\s*,\s*" + CTX25,
+         [("output", "out"), ("nblocks", "nat"), ("state", "ctx25")], "keccak_squeezeblocks", None),
     ]
 
-MALLOC = "state - > ctx = malloc ( PQC_SHAKEINCCTX_BYTES ) ; if ( state - > ctx == NULL ) { exit ( 111 ) ; }".split()
+MALLOC = "state - > ctx = malloc ( %s ) ; if ( state - > ctx == NULL ) { exit ( 111 ) ; }"
+LANES = {"PQC_SHAKEINCCTX_BYTES": 26, "PQC_SHAKECTX_BYTES": 25}
 LEANTY = {"nat": "Nat", "bytes": "List UInt8"}
 
 
@@ -78,11 +85,12 @@ def wrapper(src, mac, callees, name, argpat, params, callee, has_malloc):
         raise TranslateError("%s: unexpected parameter list %r" % (name, args))
     t = sponge.tokenize(body, name)
     if has_malloc:
-        if t[:len(MALLOC)] != MALLOC:
+        pre = (MALLOC % has_malloc).split()
+        if t[:len(pre)] != pre:
             raise TranslateError("%s: allocation prelude not in subset" % name)
-        if not re.search(r"#define\s+PQC_SHAKEINCCTX_BYTES\s+\(sizeof\(uint64_t\)\s*\*\s*26\)", src):
-            raise TranslateError("PQC_SHAKEINCCTX_BYTES is not 26 lanes")
-        t = t[len(MALLOC):]
+        if not re.search(r"#define\s+%s\s+\(sizeof\(uint64_t\)\s*\*\s*%d\)" % (has_malloc, LANES[has_malloc]), src):
+            raise TranslateError("%s is not %d lanes" % (has_malloc, LANES[has_malloc]))
+        t = t[len(pre):]
     if len(t) < 4 or t[0] != callee or t[1] != "(" or t[-2:] != [")", ";"]:
         raise TranslateError("%s: body is not the single call %s(...);" % (name, callee))
     actual = split_args(t[2:-2], name)
@@ -93,10 +101,12 @@ def wrapper(src, mac, callees, name, argpat, params, callee, has_malloc):
     bind = {}
     for a, (cn, ck) in zip(actual, cparams):
         if a == ["state", "-", ">", "ctx"]:
-            if ck != "counterlanes":
+            if (pk["state"], ck) not in (("ctx", "counterlanes"), ("ctx25", "lanes")):
                 raise TranslateError("%s: state->ctx passed as %s" % (name, cn))
-            bind[cn] = "ctx"; bind["pos"] = "ctxpos"
-        elif len(a) == 1 and a[0] in pk and pk[a[0]] != "ctx":
+            bind[cn] = "ctx"
+            if ck == "counterlanes":
+                bind["pos"] = "ctxpos"
+        elif len(a) == 1 and a[0] in pk and pk[a[0]] not in ("ctx", "ctx25"):
             if pk[a[0]] != ck:
                 raise TranslateError("%s: %s passed as %s (%s)" % (name, a[0], cn, ck))
             bind[cn] = a[0]
@@ -116,6 +126,8 @@ def wrapper(src, mac, callees, name, argpat, params, callee, has_malloc):
     for n, k in params:
         if k == "ctx":
             lp += ["(ctx : State)", "(ctxpos : Nat)"]
+        elif k == "ctx25":
+            lp.append("(ctx : State)")
         elif k == "out":
             lp += ["(%s : List UInt8)" % n, "(%soff : Nat)" % n]
         else:
